@@ -421,26 +421,27 @@ package main
 */
 
 /*@
+; the answers are named by the call whose result they carry, not by their position in the select
 (func "(*main.store).dispatchRequests"
   (props C04 C17 C18 C12)
   (requires complete (and (not (= (. s dir) nil)) (not (= (. s hooks) nil))))
   (noframe)
   (callsite "(*main.store).init" 0 (requires arguments-are-the-requests (and (= $0 s) (= $1 (. (local req) username)) (= $2 (. (local req) password)))))
-  (send "response" 0 (requires answers-with-this-requests-result (and (called "(*main.store).init" 0) (= $ch (. (local req) response)) (= (. $v err) (. (callresult "(*main.store).init" 0 0) err)))))
-  (send "response" 1 (requires answers-with-this-requests-result (and (called "(*main.store).check" 0) (= $ch (. (local req) response)) (= (. $v err) (. (callresult "(*main.store).check" 0 0) err)))))
+  (send "response" (of "(*main.store).init") (requires answers-with-this-requests-result (and (called "(*main.store).init" 0) (= $ch (. (local req) response)) (= (. $v err) (. (callresult "(*main.store).init" 0 0) err)))))
+  (send "response" (of "(*main.store).check") (requires answers-with-this-requests-result (and (called "(*main.store).check" 0) (= $ch (. (local req) response)) (= (. $v err) (. (callresult "(*main.store).check" 0 0) err)))))
   (callsite "(*main.store).add" 0 (requires arguments-are-the-requests (and (= $0 s) (= $1 (. (local req) username)) (= $2 (. (local req) password)) (= $3 (. (local req) isAdmin)))))
-  (send "response" 2 (requires answers-with-this-requests-result (and (called "(*main.store).add" 0) (= $ch (. (local req) response)) (= (. $v err) (. (callresult "(*main.store).add" 0 0) err)))))
+  (send "response" (of "(*main.store).add") (requires answers-with-this-requests-result (and (called "(*main.store).add" 0) (= $ch (. (local req) response)) (= (. $v err) (. (callresult "(*main.store).add" 0 0) err)))))
   (callsite "(*main.store).remove" 0 (requires arguments-are-the-requests (and (= $0 s) (= $1 (. (local req) username)))))
-  (send "response" 3 (requires answers-with-this-requests-result (and (called "(*main.store).remove" 0) (= $ch (. (local req) response)) (= (. $v err) (. (callresult "(*main.store).remove" 0 0) err)))))
+  (send "response" (of "(*main.store).remove") (requires answers-with-this-requests-result (and (called "(*main.store).remove" 0) (= $ch (. (local req) response)) (= (. $v err) (. (callresult "(*main.store).remove" 0 0) err)))))
   (callsite "(*main.store).update" 0 (requires arguments-are-the-requests (and (= $0 s) (= $1 (. (local req) username)) (= $2 (. (local req) password)))))
   (callsite "(*main.store).update" 1 (requires upgrade-uses-login-credentials (and (= $0 s) (= $1 (. (local req) username)) (= $2 (. (local req) password)) (= (. (local req) response) nil))))
-  (send "response" 4 (requires answers-with-this-requests-result (and (called "(*main.store).update" 0) (= $ch (. (local req) response)) (= (. $v err) (. (callresult "(*main.store).update" 0 0) err)))))
+  (send "response" (of "(*main.store).update") (requires answers-with-this-requests-result (and (called "(*main.store).update" 0) (= $ch (. (local req) response)) (= (. $v err) (. (callresult "(*main.store).update" 0 0) err)))))
   (callsite "(*main.store).setAdmin" 0 (requires arguments-are-the-requests (and (= $0 s) (= $1 (. (local req) username)) (= $2 (. (local req) isAdmin)))))
-  (send "response" 5 (requires answers-with-this-requests-result (and (called "(*main.store).setAdmin" 0) (= $ch (. (local req) response)) (= (. $v err) (. (callresult "(*main.store).setAdmin" 0 0) err)))))
-  (send "response" 6 (requires answers-with-this-requests-result (and (called "(*main.store).list" 0) (= $ch (. (local req) response)) (= (. $v list) (. (callresult "(*main.store).list" 0 0) list)) (= (. $v err) (. (callresult "(*main.store).list" 0 0) err)))))
-  (send "response" 7 (requires answers-with-this-requests-result (and (called "(*main.store).listFull" 0) (= $ch (. (local req) response)) (= (. $v list) (. (callresult "(*main.store).listFull" 0 0) list)) (= (. $v err) (. (callresult "(*main.store).listFull" 0 0) err)))))
+  (send "response" (of "(*main.store).setAdmin") (requires answers-with-this-requests-result (and (called "(*main.store).setAdmin" 0) (= $ch (. (local req) response)) (= (. $v err) (. (callresult "(*main.store).setAdmin" 0 0) err)))))
+  (send "response" (of "(*main.store).list") (requires answers-with-this-requests-result (and (called "(*main.store).list" 0) (= $ch (. (local req) response)) (= (. $v list) (. (callresult "(*main.store).list" 0 0) list)) (= (. $v err) (. (callresult "(*main.store).list" 0 0) err)))))
+  (send "response" (of "(*main.store).listFull") (requires answers-with-this-requests-result (and (called "(*main.store).listFull" 0) (= $ch (. (local req) response)) (= (. $v list) (. (callresult "(*main.store).listFull" 0 0) list)) (= (. $v err) (. (callresult "(*main.store).listFull" 0 0) err)))))
   (callsite "(*main.store).authenticate" 0 (requires arguments-are-the-requests (and (= $0 s) (= $1 (. (local req) username)) (= $2 (. (local req) password)))))
-  (send "response" 8 (requires answers-with-this-requests-result (and (called "(*main.store).authenticate" 0) (= $ch (. (local req) response)) (= (. $v ok) (. (callresult "(*main.store).authenticate" 0 0) ok)) (= (. $v isAdmin) (. (callresult "(*main.store).authenticate" 0 0) isAdmin)) (= (. $v upgradeable) (. (callresult "(*main.store).authenticate" 0 0) upgradeable)) (= (. $v lastChanged) (. (callresult "(*main.store).authenticate" 0 0) lastChanged)) (= (. $v err) (. (callresult "(*main.store).authenticate" 0 0) err)))))
+  (send "response" (of "(*main.store).authenticate") (requires answers-with-this-requests-result (and (called "(*main.store).authenticate" 0) (= $ch (. (local req) response)) (= (. $v ok) (. (callresult "(*main.store).authenticate" 0 0) ok)) (= (. $v isAdmin) (. (callresult "(*main.store).authenticate" 0 0) isAdmin)) (= (. $v upgradeable) (. (callresult "(*main.store).authenticate" 0 0) upgradeable)) (= (. $v lastChanged) (. (callresult "(*main.store).authenticate" 0 0) lastChanged)) (= (. $v err) (. (callresult "(*main.store).authenticate" 0 0) err)))))
   (loop 0 (invariant complete (and (not (= (. s dir) nil)) (not (= (. s hooks) nil))))))
 
 (func "(*main.store).reload"
